@@ -216,9 +216,9 @@ Proof.
       revert B. apply (fold_bind_inv _ (fun m => WF m /\ ext n1 m)); [|split; auto using ext_refl].
       intros m cw m' Hin [Wm Em]. destruct (adjust_ok _ _ _ _); [|discriminate]. cbn [bind].
       intros H; inversion H; subst m'; clear H. destruct Em as (D1 & D2 & D3 & D4). split.
-      + unfold WF; cbn. apply WFm_insert; auto. unfold node_ok; cbn. repeat split; auto. rewrite D1. apply DN; auto.
-      + unfold ext, size; cbn. repeat split; auto.
-        * intros k Hk. apply keys_insert_incl; auto.
+      + unfold WF; cbn. apply WFm_insert; auto. unfold node_ok; cbn. repeat split; auto; try lia. rewrite D1. apply DN; auto.
+      + unfold ext, size; cbn [dim fcap nodes with_nodes]. repeat split; auto.
+        * intros k Hk. apply (keys_insert_incl (fst cw) (new_node m (fst cw) (snd cw))); auto.
         * pose proof (length_insert_ge (fst cw) (new_node m (fst cw) (snd cw)) (nodes m) (proj1 Wm)). unfold size in D4. lia.
     - destruct e.
       + inversion B; subst. auto using ext_refl.
@@ -233,19 +233,21 @@ Qed.
 Definition step_ok (n n' : net) (samek : bool) : Prop :=
   WF n' /\ ext n n' /\ (samek = true -> keys (nodes n') = keys (nodes n)).
 Lemma step_ok_trans a b c s : step_ok a b s -> step_ok b c s -> step_ok a c s.
-Proof. intros (A1 & A2 & A3) (B1 & B2 & B3). repeat split; auto. { eapply ext_trans; eauto. } intros S. rewrite B3, A3; auto. Qed.
+Proof. intros (A1 & A2 & A3) (B1 & B2 & B3). split; [auto|split]. { eapply ext_trans; eauto. } intros S. rewrite B3, A3; auto. Qed.
+Lemma step_ok_refl n s : WF n -> step_ok n n s.
+Proof. intros W. split; [auto|split]; auto using ext_refl. Qed.
 
 Lemma train_spec n data is_new n' : WF n -> train_on_data n data is_new = Ok n' -> step_ok n n' (negb is_new).
 Proof.
   intros W. unfold train_on_data.
-  apply (fold_bind_inv _ (fun m => step_ok n m (negb is_new))); [|repeat split; auto using ext_refl].
+  apply (fold_bind_inv _ (fun m => step_ok n m (negb is_new))); [|apply step_ok_refl; auto].
   intros m o m' _ S U. destruct S as (Wm & Em & Km).
-  apply update_spec in U as (W' & E' & K'); auto. repeat split; auto. { eapply ext_trans; eauto. }
+  apply update_spec in U as (W' & E' & K'); auto. split; [auto|split]. { eapply ext_trans; eauto. }
   intros S. rewrite K', Km; auto. destruct is_new; auto; discriminate.
 Qed.
 
 Lemma store_batch_spec n data n' : WF n -> store_batch n data = Ok n' -> step_ok n n' false.
-Proof. intros W. unfold store_batch. destruct (forallb _ data); [|discriminate]. apply train_spec; auto. Qed.
+Proof. intros W. unfold store_batch. match goal with |- (if ?b then _ else _) = _ -> _ => destruct b end; [|discriminate]. apply train_spec; auto. Qed.
 
 Lemma drain_all_spec n : WF n -> WF (with_nodes n (snd (drain_all (nodes n)))) /\ keys (snd (drain_all (nodes n))) = keys (nodes n)
   /\ length (snd (drain_all (nodes n))) = size n.
@@ -261,17 +263,146 @@ Proof.
   intros W. unfold retrain_round. destruct (drain_all (nodes n)) as [pool l'] eqn:D.
   destruct (resolve pool os) as [sv|]; [|discriminate]. destruct (survivors_ok pool sv); [|discriminate].
   intros T. pose proof (drain_all_spec n W) as (W1 & K1 & L1). rewrite D in *; cbn [snd] in *.
-  apply train_spec in T as (W' & E' & K'); auto. repeat split; auto.
-  - eapply ext_trans; [|exact E']. unfold ext, size; cbn. rewrite K1, L1. repeat split; auto.
+  apply train_spec in T as (W' & E' & K'); auto. split; [auto|split].
+  - eapply ext_trans; [|exact E']. unfold ext, size; cbn [dim fcap nodes with_nodes]. rewrite K1, L1. repeat split; auto.
   - intros S. rewrite (K' S). exact K1.
 Qed.
 
 Lemma retrain_spec n g rounds n' : WF n -> retrain n g rounds = Ok n' -> step_ok n n' (negb g).
 Proof.
   intros W. unfold retrain.
-  apply (fold_bind_inv _ (fun m => step_ok n m (negb g))); [|repeat split; auto using ext_refl].
-  intros m o m' _ S U. eapply step_ok_trans; eauto. apply retrain_round_spec; auto. apply S.
+  apply (fold_bind_inv _ (fun m => step_ok n m (negb g))); [|apply step_ok_refl; auto].
+  intros m o m' _ S U. eapply step_ok_trans; eauto. apply (retrain_round_spec _ _ o); auto. apply S.
 Qed.
 
 Lemma smooth_spec n rounds n' : WF n -> smooth n rounds = Ok n' -> step_ok n n' true.
 Proof. apply retrain_spec. Qed.
+
+(* ---------- contraction ---------- *)
+Lemma keys_remove_iff c l k : In k (keys (remove c l)) <-> In k (keys l) /\ k <> c.
+Proof.
+  split; [apply keys_remove_incl|]. intros [H N]. unfold keys in *. apply in_map_iff in H as [kv [<- H]].
+  apply in_map. apply In_remove. auto.
+Qed.
+
+Lemma remove_all_spec d cap removed : forall st st',
+  WFm d cap (snd st) -> NoDup removed -> (forall c, In c removed -> In c (keys (snd st))) ->
+  fold_left (fun acc c => bind acc (fun st => match lookup c (snd st) with
+                                              | None => Panic 6
+                                              | Some nd => Ok (fst st ++ n_st nd, remove c (snd st))
+                                              end)) removed (Ok st) = Ok st' ->
+  WFm d cap (snd st') /\ (length (snd st') + length removed = length (snd st))%nat /\
+  (forall k, In k (keys (snd st')) <-> In k (keys (snd st)) /\ ~ In k removed).
+Proof.
+  induction removed as [|c t IH]; intros st st' W ND IN; cbn [fold_left bind].
+  - intros H; inversion H; subst. split; [auto|]. split; [cbn; lia|]. intros k. cbn. tauto.
+  - destruct (lookup c (snd st)) as [nd|] eqn:L; [|rewrite fold_bind_panic; discriminate].
+    intros H. inversion ND; subst. apply IH in H; cbn [snd] in *; auto.
+    + destruct H as (W' & LEN & KS). split; auto. split.
+      * rewrite (length_remove_in c (snd st)); [cbn; lia|apply W|apply IN; cbn; auto].
+      * intros k. rewrite KS, keys_remove_iff. cbn. split; [intros [[A B] C]|intros [A C]]; repeat split; auto; try tauto.
+        intros [E|E]; [congruence|tauto].
+    + apply WFm_remove; auto.
+    + intros k Hk. apply keys_remove_iff. split; [apply IN; cbn; auto|]. intros E; subst. tauto.
+Qed.
+
+Definition remap_entry (f : coord -> coord) (kv : coord * node) : coord * node := (f (fst kv), move (f (fst kv)) (snd kv)).
+
+Lemma remap_wf d cap f l : forall acc, WFm d cap acc -> Forall (node_ok d cap) l ->
+  WFm d cap (fold_left (fun acc kv => let nd := move (f (fst kv)) (snd kv) in insert (n_c nd) nd acc) l acc).
+Proof.
+  induction l as [|[k v] t IH]; intros acc W F; cbn [fold_left]; auto.
+  inversion F; subst. apply IH; auto. cbn. apply WFm_insert; auto.
+  destruct H1 as (A & B & C & D). cbn in *. repeat split; auto.
+Qed.
+
+Lemma remap_fresh f l : forall acc, NoDup (map f (keys l)) -> (forall k, In k (keys l) -> ~ In (f k) (keys acc)) ->
+  fold_left (fun acc kv => let nd := move (f (fst kv)) (snd kv) in insert (n_c nd) nd acc) l acc = rev (map (remap_entry f) l) ++ acc.
+Proof.
+  induction l as [|[k v] t IH]; intros acc ND FR; cbn [fold_left]; auto.
+  cbn in ND. inversion ND; subst. cbn [n_c move fst snd]. unfold insert. rewrite remove_notin by (apply FR; cbn; auto).
+  rewrite IH; auto.
+  - cbn [map rev]. rewrite <- app_assoc. reflexivity.
+  - intros k' Hk'. cbn. intros [E|E].
+    + apply H1. rewrite E. apply in_map. exact Hk'.
+    + revert E. apply FR. cbn; auto.
+Qed.
+
+Lemma NoDup_map_inj_on {A B} (f : A -> B) l : NoDup l -> (forall a b, In a l -> In b l -> f a = f b -> a = b) -> NoDup (map f l).
+Proof.
+  induction l as [|x t IH]; cbn; intros ND INJ; [constructor|]. inversion ND; subst. constructor.
+  - intros H. apply in_map_iff in H as [y [E Hy]]. assert (y = x) by (apply INJ; auto). subst. tauto.
+  - apply IH; auto.
+Qed.
+
+Lemma decims_34 sh xd yd : decims sh 3 4 = (xd, yd) -> (xd = 3 \/ xd = 4) /\ (yd = 3 \/ yd = 4).
+Proof.
+  destruct sh as [[x0 x1] [y0 y1]]. unfold decims.
+  destruct (y1 - y0 <? x1 - x0); [|destruct (x1 - x0 <? y1 - y0)]; intros [= <- <-]; auto.
+Qed.
+
+Lemma remap_coord_inj sh xd yd a b : (xd = 3 \/ xd = 4) -> (yd = 3 \/ yd = 4) ->
+  decimated xd yd a = false -> decimated xd yd b = false -> remap_coord sh xd yd a = remap_coord sh xd yd b -> a = b.
+Proof.
+  intros Hx Hy Da Db. unfold decimated in *. apply orb_false_iff in Da as [Da1 Da2]. apply orb_false_iff in Db as [Db1 Db2].
+  apply Z.eqb_neq in Da1, Da2, Db1, Db2. unfold remap_coord. intros [= E1 E2].
+  apply shift_inj in E1; auto. apply shift_inj in E2; auto. destruct a, b; cbn in *; congruence.
+Qed.
+
+Lemma node_coords_keys d cap l : WFm d cap l -> map (fun kv => n_c (snd kv)) l = keys l.
+Proof. intros [_ F]. unfold keys. apply map_ext_in. intros kv H. rewrite Forall_forall in F. apply (F kv H). Qed.
+
+(* what Network::compact does to a well-formed network *)
+Definition cdec (n : net) : Z * Z := decims (shape (nodes n)) 3 4.
+Definition kept (n : net) (c : coord) : bool := negb (decimated (fst (cdec n)) (snd (cdec n)) c).
+Definition cmap (n : net) (c : coord) : coord := remap_coord (shape (nodes n)) (fst (cdec n)) (snd (cdec n)) c.
+
+Lemma compact_spec n os n' : WF n -> compact n os = Ok n' ->
+  WF n' /\ dim n' = dim n /\ fcap n' = fcap n /\
+  (n' = n \/
+   ((4 <= size n')%nat /\
+    (size n' + length (filter (fun c => negb (kept n c)) (keys (nodes n))) = size n)%nat /\
+    (forall c', In c' (keys (nodes n')) <-> exists c, In c (keys (nodes n)) /\ kept n c = true /\ c' = cmap n c))).
+Proof.
+  intros W. unfold compact, contract_graph, kept, cmap, cdec.
+  set (sh := shape (nodes n)). destruct (decims sh 3 4) as [xd yd] eqn:DE. cbn [fst snd].
+  apply decims_34 in DE as [Hx Hy].
+  rewrite (node_coords_keys _ _ _ W).
+  set (removed := filter (decimated xd yd) (keys (nodes n))).
+  assert (RM : filter (fun c => negb (negb (decimated xd yd c))) (keys (nodes n)) = removed).
+  { unfold removed. apply filter_ext. intros c. apply negb_involutive. }
+  rewrite RM.
+  destruct (size n - length removed <? 4)%nat eqn:G.
+  { destruct os; [|discriminate]. intros [= <-]. auto. }
+  apply Nat.ltb_ge in G.
+  unfold remove_all. destruct (fold_left _ removed (Ok ([], nodes n))) as [st|] eqn:RA; [|discriminate]. cbn [bind].
+  apply (remove_all_spec (dim n) (fcap n)) in RA; cbn [snd]; auto.
+  2:{ unfold removed. apply NoDup_filter. apply W. }
+  2:{ intros c Hc. unfold removed in Hc. apply filter_In in Hc. tauto. }
+  destruct RA as (W1 & LEN & KS). cbn [snd] in LEN, KS.
+  destruct (resolve (fst st) os) as [sv|]; [|discriminate]. destruct (perm_ok (fst st) sv); [|discriminate].
+  intros T.
+  assert (NK : forall k, In k (keys (snd st)) -> decimated xd yd k = false).
+  { intros k Hk. apply KS in Hk as [A B]. destruct (decimated xd yd k) eqn:D; auto. exfalso. apply B. unfold removed. apply filter_In. auto. }
+  assert (NDf : NoDup (map (remap_coord sh xd yd) (keys (snd st)))).
+  { apply NoDup_map_inj_on; [apply W1|]. intros a b Ha Hb. apply remap_coord_inj; auto. }
+  assert (RE : remap (remap_coord sh xd yd) (snd st) = rev (map (remap_entry (remap_coord sh xd yd)) (snd st)) ++ []).
+  { unfold remap. apply remap_fresh; auto. }
+  rewrite app_nil_r in RE.
+  assert (W2 : WFm (dim n) (fcap n) (remap (remap_coord sh xd yd) (snd st))).
+  { unfold remap. apply remap_wf; [split; constructor|apply W1]. }
+  apply train_spec in T; [|exact W2]. destruct T as (W' & (E1 & E2 & E3 & E4) & K'). cbn [negb] in K'. specialize (K' eq_refl).
+  cbn [dim fcap nodes with_nodes] in *.
+  split; [exact W'|]. split; [exact E1|]. split; [exact E2|]. right.
+  assert (SZ : size n' = length (snd st)).
+  { unfold size. rewrite <- (map_length fst (nodes n')). fold (keys (nodes n')). rewrite K'. unfold keys. rewrite map_length, RE, rev_length, map_length. reflexivity. }
+  unfold size in *. split; [lia|]. split; [lia|].
+  intros c'. rewrite K', RE. unfold keys at 1. rewrite map_rev, <- in_rev, map_map. cbn [remap_entry fst].
+  rewrite in_map_iff. split.
+  - intros [kv [<- Hkv]]. exists (fst kv). assert (Hk : In (fst kv) (keys (snd st))) by (apply in_map; auto).
+    split; [apply KS in Hk; tauto|]. split; auto. rewrite (NK _ Hk). reflexivity.
+  - intros [c [Hc [Kc ->]]]. apply negb_true_iff in Kc.
+    assert (Hk : In c (keys (snd st))).
+    { apply KS. split; auto. unfold removed. rewrite filter_In. intros [_ D]. congruence. }
+    unfold keys in Hk. apply in_map_iff in Hk as [kv [<- Hkv]]. exists kv. auto.
+Qed.
